@@ -38,10 +38,42 @@ var c19PEKeys = []string{"id", "name", "purpose", "format", "input_descriptors",
 
 const c19PEHolder = "did:web:example.com:iam:holder"
 
+// Definitions with submission requirements in which ONE credential of the wallet fulfils two (or three) input descriptors:
+// Match / the submission builder / Validate then have to keep mappings and selected credentials aligned (callers index the
+// credential list by mapping position: PresentationSubmission.Validate, discovery Search).
+func c19PEInlineDefinitions() [][]byte {
+	field := func(path, key string, val any) map[string]any {
+		return map[string]any{"path": []any{path}, "filter": map[string]any{"type": "string", key: val}}
+	}
+	desc := func(id string, groups []any, fields ...map[string]any) map[string]any {
+		fs := make([]any, len(fields))
+		for i := range fields {
+			fs[i] = fields[i]
+		}
+		return map[string]any{"id": id, "group": groups, "constraints": map[string]any{"fields": fs}}
+	}
+	city := field("$.credentialSubject.organization.city", "const", "IJbergen")
+	name := field("$.credentialSubject.organization.name", "pattern", "care")
+	typ := field("$.type", "const", "NutsOrganizationCredential")
+	never := field("$.credentialSubject.organization.city", "const", "Nowhere")
+	a := []any{"A"}
+	ab := []any{"A", "B"}
+	b := []any{"B"}
+	return [][]byte{
+		jsonmut.Encode(map[string]any{"id": "sr-all", "submission_requirements": []any{map[string]any{"rule": "all", "from": "A"}},
+			"input_descriptors": []any{desc("by_city", a, city), desc("by_name", a, name)}}),
+		jsonmut.Encode(map[string]any{"id": "sr-pick", "submission_requirements": []any{map[string]any{"rule": "pick", "min": 1, "from": "A"}},
+			"input_descriptors": []any{desc("by_city", a, city), desc("by_name", a, name, typ), desc("never", a, never)}}),
+		jsonmut.Encode(map[string]any{"id": "sr-nested", "submission_requirements": []any{map[string]any{"rule": "all", "from_nested": []any{
+			map[string]any{"rule": "pick", "count": 1, "from": "A"}, map[string]any{"rule": "all", "from": "B"}}}},
+			"input_descriptors": []any{desc("by_city", ab, city), desc("by_name", b, name), desc("by_type", b, typ)}}),
+	}
+}
+
 func c19PEGen(t *rapid.T) c19PECase {
 	return c19PECase{
 		What:     rapid.SampledFrom([]string{"definition", "definition", "submission", "envelope", "jwt-vp-claims", "jwt-vp-claims", "jwt-vp-header", "jwt-vc-claims"}).Draw(t, "what"),
-		PD:       rapid.IntRange(0, len(c19PEFiles)-1).Draw(t, "pd"),
+		PD:       rapid.IntRange(0, len(c19PEFiles)+2).Draw(t, "pd"), // files, then the 3 inline definitions
 		Envelope: rapid.IntRange(0, 3).Draw(t, "envelope"),
 		Plan:     c19x.GenPlan(t, c19PEKeys),
 	}
@@ -117,8 +149,15 @@ func c19PERun(x *h.Ctx, c c19PECase) {
 	}
 	c19x.Setup(x, "pe fixture", func() {
 		var err error
-		pdRaw, err = os.ReadFile(h.RepoPath(c19PEFiles[((c.PD%len(c19PEFiles))+len(c19PEFiles))%len(c19PEFiles)]))
-		x.NoErr(err, "read definition fixture")
+		inline := c19PEInlineDefinitions()
+		npd := len(c19PEFiles) + len(inline)
+		if k := ((c.PD % npd) + npd) % npd; k < len(c19PEFiles) {
+			pdRaw, err = os.ReadFile(h.RepoPath(c19PEFiles[k]))
+			x.NoErr(err, "read definition fixture")
+		} else {
+			pdRaw = inline[k-len(c19PEFiles)]
+			x.Class("definition=one-credential-fulfils-several-descriptors-under-submission-requirements")
+		}
 		ld, jwtVC := c19PECredentials()
 		c1, err := vc.ParseVerifiableCredential(string(jsonmut.Encode(ld)))
 		x.NoErr(err, "parse LD credential")
@@ -197,6 +236,9 @@ func c19PERun(x *h.Ctx, c c19PECase) {
 		if merr == nil {
 			x.Classf("definition:matched-%d", min(len(matched), 3))
 			m := map[string]vc.VerifiableCredential{}
+			if len(mappings) > len(matched) {
+				x.Class("match:more-mappings-than-credentials") // callers index the credentials by mapping position (they are run below)
+			}
 			for i, mp := range mappings {
 				if i < len(matched) {
 					m[mp.Id] = matched[i]
